@@ -25,6 +25,10 @@ const CFN_RULES: &str = "rule s3 { Resources.*[ Type == 'AWS::S3::Bucket' ].Prop
 const CFN_DATA: &str = "{\n  \"Resources\": {\n    \"b1\": {\"Type\": \"AWS::S3::Bucket\", \"Properties\": {\"Name\": \"y\", \"BucketName\": \"q\"}},\n    \"b2\": {\"Type\": \"AWS::S3::Bucket\", \"Properties\": {\"Name\": \"x\", \"bucketName\": \"r\"}},\n    \"v1\": {\"Type\": \"AWS::EC2::Volume\", \"Properties\": {\"Size\": 50, \"bucket_name\": 1}}\n  }\n}\n";
 const TF_RULES: &str = "rule names { resource_changes[*].change.after.name == \"x\" <<name>> }\nrule sizes { resource_changes[*].change.after.size <= 10 <<size>> }\nrule tagged { resource_changes[*].change.after.tags in [[\"a\"], [\"b\"]] }\n";
 const TF_DATA: &str = "{\n \"resource_changes\": [\n  {\"address\": \"aws_s3_bucket.b1\", \"change\": {\"after\": {\"name\": \"y\", \"size\": 50, \"tags\": [\"q\"]}}},\n  {\"address\": \"aws_s3_bucket.b2\", \"change\": {\"after\": {\"name\": \"z\", \"size\": 5, \"tags\": [\"a\"]}}},\n  {\"address\": \"aws_ebs_volume.v1\", \"change\": {\"after\": {\"name\": \"x\", \"size\": 70, \"tags\": [\"r\"]}}},\n  {\"address\": \"aws_ebs_volume.v2\", \"change\": {\"after\": {\"name\": \"w\", \"size\": 80, \"tags\": [\"s\"]}}}\n ]\n}\n";
+// every built-in except now(): date parsing with and without a UTC offset, conversions, string functions
+const FN_RULES: &str = "rule fe { let e = parse_epoch(t1)\n %e == 1724198400 <<fe>> }\nrule fc { let n = count(l[*])\n %n == 5 <<fc>> }\nrule fj { let j = join(names[*], \",\")\n %j == \"a,b\" <<fj>> }\nrule fu { let u = to_upper(names[*])\n %u == \"A\" <<fu>> }\nrule fr { let r = regex_replace(names[*], \"a\", \"-\")\n %r == \"-\" <<fr>> }\nrule fp { let p = parse_int(nums[*])\n %p in [1, 2] <<fp>> }\nrule fs { let s = substring(names[*], 0, 1)\n %s == \"a\" <<fs>> }\nrule fd { let d = url_decode(enc)\n %d == \"a b\" <<fd>> }\nrule fk { let k = json_parse(js)\n %k.k == 2 <<fk>> }\n";
+const FN_RULES_NAIVE: &str = "rule fe { let e = parse_epoch(t2)\n %e == 1724198400 <<fe>> }\n";
+const FN_DATA: &str = "{\"t1\":\"2024-08-21T00:00:00Z\",\"t2\":\"2024-08-21T00:00:00\",\"l\":[1,2,3],\"names\":[\"a\",\"b\",\"c\"],\"nums\":[\"1\",\"3\"],\"enc\":\"a%20b\",\"js\":\"{\\\"k\\\":1}\"}";
 const TEST_FILE: &str = "- name: one\n  input: {a: 1, b: 1, l: [{x: 1}]}\n  expectations:\n    rules:\n      ra: PASS\n      rb: FAIL\n      rc: SKIP\n      rd: PASS\n      re: FAIL\n      rf: PASS\n- name: two\n  input: {a: 2, b: 1, l: [{x: 2}]}\n  expectations:\n    rules:\n      ra: PASS\n      rb: PASS\n      rd: PASS\n      rf: FAIL\n";
 const TEMPLATE: &str = "{\"Resources\":{\"a\":{\"Type\":\"AWS::S3::Bucket\",\"Properties\":{\"P\":\"s\",\"Q\":5,\"R\":true}},\"b\":{\"Type\":\"AWS::S3::Bucket\",\"Properties\":{\"P\":\"t\",\"Q\":6,\"R\":true}},\"c\":{\"Type\":\"AWS::EC2::Volume\",\"Properties\":{\"P\":\"u\",\"Size\":1}},\"d\":{\"Type\":\"Custom::Thing\",\"Properties\":{\"Z\":[1,2]}}}}";
 
@@ -43,6 +47,9 @@ fn cases(dir: &str) -> Vec<Case> {
     let d: Vec<String> = DATA.iter().enumerate().map(|(k, t)| w(&format!("d{}.json", k), t)).collect();
     let cr = w("cfn.guard", CFN_RULES);
     let cd = w("cfn.json", CFN_DATA);
+    let fr = w("fn.guard", FN_RULES);
+    let fnv = w("fn_naive.guard", FN_RULES_NAIVE);
+    let fd = w("fn.json", FN_DATA);
     let tr = w("tf.guard", TF_RULES);
     let td = w("tf.json", TF_DATA);
     let tf = w("t/tests/r5_tests.yaml", TEST_FILE);
@@ -64,7 +71,7 @@ fn cases(dir: &str) -> Vec<Case> {
         a.extend(sv(extra));
         a
     };
-    let sets: Vec<(&str, Vec<&String>, Vec<&String>)> = vec![("1x1", vec![&r5], vec![&d[0]]), ("2x3", vec![&r5, &rb], vec![&d[0], &d[1], &d[2]]), ("query-query", vec![&rc], vec![&d[0], &d[1]]), ("cfn", vec![&cr], vec![&cd]), ("terraform", vec![&tr], vec![&td]), ("cfn+generic", vec![&cr, &r5], vec![&cd])];
+    let sets: Vec<(&str, Vec<&String>, Vec<&String>)> = vec![("1x1", vec![&r5], vec![&d[0]]), ("2x3", vec![&r5, &rb], vec![&d[0], &d[1], &d[2]]), ("query-query", vec![&rc], vec![&d[0], &d[1]]), ("cfn", vec![&cr], vec![&cd]), ("terraform", vec![&tr], vec![&td]), ("functions", vec![&fr], vec![&fd]), ("date-without-offset", vec![&fnv], vec![&fd]), ("cfn+generic", vec![&cr, &r5], vec![&cd])];
     for (sn, rs, ds) in &sets {
         for (mn, extra, cmp) in [
             ("summary-all", vec!["-S", "all"], "lines"),
@@ -190,6 +197,8 @@ pub fn run(tier: &str) -> i32 {
     let nseeds: u64 = if thorough { 32 } else { 6 };
     let envs: Vec<(&str, Vec<(String, String)>, Option<String>)> = vec![
         ("TZ=Asia/Tokyo", vec![("TZ".into(), "Asia/Tokyo".into())], None),
+        ("TZ=JST-9", vec![("TZ".into(), "JST-9".into())], None),
+        ("TZ=EST5EDT", vec![("TZ".into(), "EST5EDT".into())], None),
         ("LANG=C", vec![("LANG".into(), "C".into()), ("LC_ALL".into(), "C".into())], None),
         ("HOME=/nonexistent", vec![("HOME".into(), "/nonexistent".into())], None),
         ("cwd=/", vec![], Some("/".to_string())),
@@ -281,6 +290,48 @@ pub fn run(tier: &str) -> i32 {
             }
         }
     }, Acc::merge);
+    // ---- library history: run_checks called twice on one thread with different documents of the same name and length;
+    //      the second answer must be the one a fresh thread gives
+    let mut res = res;
+    {
+        let lib_rules = [RULES5, RULES_B, RULES_C];
+        let lib_docs = ["{\"a\":1,\"b\":1,\"l\":[{\"x\":1}],\"m\":[1]}", "{\"a\":2,\"b\":1,\"l\":[{\"x\":1}],\"m\":[1]}", "{\"a\":1,\"b\":2,\"l\":[{\"x\":3}],\"m\":[7]}", "{\"a\":9,\"b\":9,\"l\":[{\"y\":1}],\"m\":[1]}"];
+        let mut lh = 0u64;
+        for r in lib_rules {
+            for a in lib_docs {
+                for b in lib_docs {
+                    if a == b {
+                        continue;
+                    }
+                    for verbose in [false, true] {
+                        let (r1, a1, b1) = (r.to_string(), a.to_string(), b.to_string());
+                        let fresh = std::thread::spawn({
+                            let (r1, b1) = (r1.clone(), b1.clone());
+                            move || {
+                                crate::impl_::silence_panics();
+                                crate::impl_::lib_raw(&r1, &b1, verbose)
+                            }
+                        })
+                        .join()
+                        .unwrap_or(Err("thread".into()));
+                        let after = std::thread::spawn(move || {
+                            crate::impl_::silence_panics();
+                            let _ = crate::impl_::lib_raw(&r1, &a1, verbose);
+                            crate::impl_::lib_raw(&r1, &b1, verbose)
+                        })
+                        .join()
+                        .unwrap_or(Err("thread".into()));
+                        lh += 1;
+                        res.acc.traces += 3;
+                        if fresh != after {
+                            res.acc.violate("library-history", format!("run_checks on {} answers differently after a call on {} on the same thread (verbose={})", b, a, verbose), json!({"kind":"lib2","rules":r,"data":a,"rules2":r,"data2":b,"expected":"the answer of a fresh thread","observed":format!("{:?}", after).chars().take(300).collect::<String>()}));
+                        }
+                    }
+                }
+            }
+        }
+        rep.extra.insert("library_history_pairs".into(), json!(lh));
+    }
     rep.states = res.acc.traces;
     rep.transitions = res.acc.traces;
     if res.capped {
